@@ -91,6 +91,9 @@ def num_to_str(n: Optional[float], fmt: str) -> Optional[str]:
         # the resolution of the format first (so fields never reach 60) and the
         # sign applies to the whole value.
         units_per_whole = _SEXAGESIMAL_UNITS[fraction_length]
+        # (an int is scaled as a float: the product of two ints may be an
+        # int beyond the float range, which the arithmetic below cannot take)
+        n = float(n)
         if math.isinf(abs(n) * units_per_whole):
             # too large to be split into sexagesimal fields (the product
             # overflows); plain notation is valid number text for any format
